@@ -811,6 +811,38 @@ fn main() {
                     ensure!((d - 1e-100).abs() <= 1e-112, "determinant = {:e} but the exact value is 1e-100 (the matrix is nonsingular)", d);
                     Ok(())
                 })),
+                ("partial-product determinant diag(2^-300 x4, 2^300 x4)".to_string(), Box::new(|| {
+                    let mut a = Matrix::<f64>::new(8, 8, 0.0);
+                    for i in 0..8 {
+                        a[(i, i)] = if i < 4 { 2f64.powi(-300) } else { 2f64.powi(300) };
+                    }
+                    let d = a.determinant();
+                    ensure!(d == 1.0, "determinant = {:e} but the exact value is 1 (the pivots are only 2^600 apart)", d);
+                    Ok(())
+                })),
+                ("partial-product determinant diag(2^520, 2^520, 2^-40)".to_string(), Box::new(|| {
+                    let mut a = Matrix::<f64>::new(3, 3, 0.0);
+                    a[(0, 0)] = 2f64.powi(520);
+                    a[(1, 1)] = 2f64.powi(520);
+                    a[(2, 2)] = 2f64.powi(-40);
+                    let d = a.determinant();
+                    ensure!(d == 2f64.powi(1000), "determinant = {:e} but the exact value is 2^1000", d);
+                    Ok(())
+                })),
+                ("row-scaled pivot choice diag(2^54,2^54,1,1)*[[49,49,0,0],[1,1,1,1],[1,-1,0,-1],[0,-1,-1,-1]]".to_string(), Box::new(|| {
+                    let s = 2f64.powi(54);
+                    let rows: [[f64; 4]; 4] = [[49.0 * s, 49.0 * s, 0.0, 0.0], [s, s, s, s], [1.0, -1.0, 0.0, -1.0], [0.0, -1.0, -1.0, -1.0]];
+                    let mut a = Matrix::<f64>::new(4, 4, 0.0);
+                    for i in 0..4 {
+                        for j in 0..4 {
+                            a[(i, j)] = rows[i][j];
+                        }
+                    }
+                    let exact = 49.0 * 2f64.powi(108);
+                    let d = a.determinant();
+                    ensure!((d - exact).abs() <= 1e-9 * exact, "determinant = {:e} but the exact value is 49 * 2^108 = {:e} (every entry exact, the matrix nonsingular)", d, exact);
+                    Ok(())
+                })),
                 ("multiplier-underflow determinant [[2^600,2^900],[2^-600,3*2^-300]]".to_string(), Box::new(|| {
                     let mut a = Matrix::<f64>::new(2, 2, 0.0);
                     a[(0, 0)] = 2f64.powi(600);
